@@ -26,6 +26,8 @@ def cfg : Cfg :=
     statusCatch := Gen.C03.statusCatch
     exeCatch := Gen.C03.exeCatch
     exeGuessCatch := Gen.C03.exeGuessCatch
+    guessClauses := Gen.C03.guessItClauses
+    guessTailRaises := Gen.C03.guessItTail == "if isinstance(fallback, AccessDenied): raise fallback ;; return fallback"
     wrapped := Gen.C03.wrapped
     memoized := Gen.C03.memoized
     feMemoized := Gen.C03.feMemoized
@@ -52,5 +54,11 @@ def tryScopes : List (String × List String) := Gen.C03.tryScopes
 def parentRootStop : String := Gen.C03.parentRootStop
 /-- the file-system probes memory_maps() makes on a mapping's path (expected: the one `(deleted)` suffix test) -/
 def mapsDeletedProbe : String := Gen.C03.mapsDeletedProbe
+
+/-- the last statements of exe()'s helper guess_it(fallback), from the `isinstance(fallback, …)` test on (as text) -/
+def guessItTail : String := Gen.C03.guessItTail
+/-- every use of a name bound by `except … as NAME` in psutil.Process / process_iter other than `raise` and attribute reads:
+    where a caught exception OBJECT starts to travel as a value (expected: exe() hands it to guess_it, nothing else) -/
+def excValueFlows : List String := Gen.C03.excValueFlows
 
 end Psutil.C03
